@@ -93,7 +93,7 @@ def generate(job):
         spec["j_later"] = rs.choice(["0_then_all", "1", "all", "iid"])
         if spec["j_later"] == "1":
             spec["N"] = min(spec["N"], 7)  # one acceptance per refill batch: keep the number of batches small
-    spec["variant"] = rs.weighted([("plain", 6), ("cal_max", 2), ("no_force", 1), ("weights", 1)]) if kind == "flat" else ("cal_max" if (kind == "config" and rs.chance(0.3)) else "plain")
+    spec["variant"] = rs.weighted([("plain", 6), ("cal_max", 2), ("no_force", 1), ("weights", 1), ("interrupted", 1)]) if kind == "flat" else ("cal_max" if (kind == "config" and rs.chance(0.3)) else "plain")
     if kind in ("flat", "gen_mc"):
         n = rs.weighted([(2, 1), (3, 4), (4, 3), (5, 3), (6, 2)])
         m0, ms = gen_masses(rs, n, rs.weighted([("plain", 5), ("light", 2), ("massless", 2), ("threshold", 2)]))
@@ -230,6 +230,24 @@ def run_generator(spec, log):
                     log.count("probe.cal_max_weight_used")
                     del rec.batches[:]  # weights evaluated by the maximiser itself are not proposals
                     pending["b"] = None
+                    out = g.generate(N)
+                elif var == "interrupted":
+                    # a generation interrupted by an exception at a seeded line, then the same generator is used again
+                    from sim.seams import InjectedFault, LineTracer
+                    import sys as _sys
+
+                    tr = LineTracer(fire_at=20 + spec["rng_seed"] % 400, exc_type=InjectedFault)
+                    try:
+                        try:
+                            with tr:
+                                g.generate(N)
+                        finally:
+                            _sys.settrace(None)
+                    except InjectedFault:
+                        log.count("fault.generation_interrupted")
+                    del rec.batches[:]
+                    pending["b"] = None
+                    rec.n_flatten.clear()
                     out = g.generate(N)
                 elif var == "no_force":
                     out = g.generate(N, force=False)
@@ -472,7 +490,7 @@ def execute(spec):
                 log.fail("momentum-conservation", "%s|momentum-conservation" % kind, "momenta do not add up to the parent at rest: |sum E - m0| = %.3g, |sum p| = %.3g (m0=%r, masses=%r)" % (dE, dp, m0, mi))
                 raise StopIteration
             # exactly-once / order: emitted event r comes from the r-th accepted proposal
-            if var in ("plain", "cal_max") and n >= 3 and rec.batches and all(b["rnd"] is not None for b in rec.batches):
+            if var in ("plain", "cal_max", "interrupted") and n >= 3 and rec.batches and all(b["rnd"] is not None for b in rec.batches):
                 acc = [[] for _ in range(n - 2)]
                 for b in rec.batches:
                     sel = b["weight"] > b["rnd"]
